@@ -101,6 +101,8 @@ type Conn struct {
 
 	utls utlsConnExtraFields // [UTLS] used for extensive things such as ALPS, PSK, etc
 
+	verif verifConnState // verification hooks (build tag verif); empty otherwise
+
 	// input/output
 	in, out   halfConn
 	rawInput  bytes.Buffer // raw input, starting with a record header
@@ -1054,6 +1056,7 @@ func (c *Conn) writeHandshakeRecord(msg handshakeMessage, transcript transcriptH
 	if err != nil {
 		return 0, err
 	}
+	data = c.verifRewriteOut(msg, data)
 	if transcript != nil {
 		transcript.Write(data)
 	}
